@@ -148,6 +148,30 @@ def stackRecv : List KChan → Bytes → List KChan × Bytes
     let r := c.recv q.2
     (r.1 :: q.1, r.2)
 
+/-- One call on the (possibly nested) wrappers: `send` on `connection.socket`, `recv` on it, or
+`read` on `connection.file_object`. -/
+def stackStep (st : List KChan) : Op → List KChan × Bytes
+  | .send d => stackSend st d
+  | .recv ch => stackRecv st ch
+  | .read ch => stackRecv st ch
+
+/-- Any interleaving of calls on the installed wrappers: one output per call (for `send` what the
+REAL socket is handed, for `recv`/`read` the plaintext returned when the real socket / raw file
+object returned the chunk). -/
+def stackRun : List KChan → List Op → List Bytes
+  | _, [] => []
+  | st, op :: ops => (stackStep st op).2 :: stackRun (stackStep st op).1 ops
+
+/-- The stack obtained by installing a cipher for each secret in turn (the first is the innermost);
+`create_AES_cipher` may raise. -/
+def mkStack : List Bytes → Except Err (List KChan)
+  | [] => .ok []
+  | d :: ds =>
+    match KChan.create d, mkStack ds with
+    | .ok c, .ok st => .ok (st ++ [c])
+    | .error e, _ => .error e
+    | _, .error e => .error e
+
 /-! ## the login reactor with an entropy oracle -/
 
 /-- `os.urandom(16)` as an oracle: `draw n` is what the n-th call of the process returns.  The only
@@ -306,5 +330,77 @@ def replyOf (P : KeyParams) (d pk tok : Bytes) : ClientPkt :=
 def drawIdxs : Nat → List (Nat × Nat) → List Nat
   | _, [] => []
   | n, (gap, k) :: rest => List.range' (n + gap) k ++ drawIdxs (n + gap + k) rest
+
+/-! ## RSAES-PKCS1-v1_5 (RFC 8017 §7.2) over an abstract RSA permutation
+
+`pubkey.encrypt(m, PKCS1v15())` (`encryption.py:30-31`) is the `cryptography` package / OpenSSL,
+not pyCraft code; what pyCraft decides is the padding scheme (`PKCS1v15()`), the key (the server's)
+and the two messages (the 16-byte secret, the server's token).  `Model/Login.lean` takes the
+whole of it as a parameter `Rsa` with the ASSUMED law `dec priv (enc pub m) = m`.  Here the scheme
+is written out, so that this law is DERIVED (for every message the scheme accepts) from the one
+property of the RSA primitive itself: `RSADP (RSAEP x) = x` for `x < n`. -/
+
+/-- OS2IP: big-endian octets to integer. -/
+def os2ip (bs : Bytes) : Nat := bs.foldl (fun a b => 256 * a + b.toNat) 0
+
+/-- The `k` low-order base-256 digits of `x`, most significant first. -/
+def toBE : Nat → Nat → Bytes
+  | _, 0 => []
+  | x, k + 1 => toBE (x / 256) k ++ [UInt8.ofNat (x % 256)]
+
+/-- I2OSP: "integer too large" unless `x < 256^k`. -/
+def i2osp (x k : Nat) : Except Err Bytes := if x < 256 ^ k then .ok (toBE x k) else .error .value
+
+/-- EME-PKCS1-v1_5 encoding (§7.2.1 step 2) with the padding string `ps` the library drew:
+`EM = 00 ‖ 02 ‖ PS ‖ 00 ‖ M`; "message too long" unless `mLen ≤ k − 11`. -/
+def emeEncode (k : Nat) (ps m : Bytes) : Except Err Bytes :=
+  if m.length + 11 ≤ k then .ok ([0x00, 0x02] ++ ps ++ [0x00] ++ m) else .error .value
+
+/-- What the library guarantees about the padding string: `k − mLen − 3` NONZERO octets. -/
+def PsOK (k : Nat) (ps m : Bytes) : Prop := ps.length = k - m.length - 3 ∧ ∀ b ∈ ps, b ≠ 0
+
+instance (k : Nat) (ps m : Bytes) : Decidable (PsOK k ps m) := by unfold PsOK; exact inferInstance
+
+/-- EME-PKCS1-v1_5 decoding (§7.2.2 step 3): "decryption error" if the first octet is not 00, the
+second not 02, there is no 00 octet to separate PS from M, or PS is shorter than 8 octets. -/
+def emeDecode (em : Bytes) : Except Err Bytes :=
+  match em with
+  | a :: b :: rest =>
+    if a = 0 ∧ b = 2 then
+      match rest.dropWhile (· ≠ 0) with
+      | [] => .error .value
+      | _ :: m => if 8 ≤ (rest.takeWhile (· ≠ 0)).length then .ok m else .error .value
+    else .error .value
+  | _ => .error .value
+
+/-- The RSA primitive for one key pair: modulus `n` of `k` octets, `f` = RSAEP (`x ↦ x^e mod n`),
+`finv` = RSADP (`y ↦ y^d mod n`).  The only law used: RSADP inverts RSAEP below `n`. -/
+structure Trapdoor where
+  k : Nat
+  n : Nat
+  f : Nat → Nat
+  finv : Nat → Nat
+  n_lo : 256 ^ (k - 1) ≤ n
+  n_hi : n < 256 ^ k
+  f_lt : ∀ x, x < n → f x < n
+  inv : ∀ x, x < n → finv (f x) = x
+
+/-- RSAES-PKCS1-V1_5-ENCRYPT (§7.2.1). -/
+def rsaesEncrypt (T : Trapdoor) (ps m : Bytes) : Except Err Bytes :=
+  match emeEncode T.k ps m with
+  | .error e => .error e
+  | .ok em =>
+    -- RSAEP: "message representative out of range" unless below the modulus
+    if os2ip em < T.n then i2osp (T.f (os2ip em)) T.k else .error .value
+
+/-- RSAES-PKCS1-V1_5-DECRYPT (§7.2.2). -/
+def rsaesDecrypt (T : Trapdoor) (c : Bytes) : Except Err Bytes :=
+  if c.length = T.k ∧ 11 ≤ T.k then
+    if os2ip c < T.n then
+      match i2osp (T.finv (os2ip c)) T.k with
+      | .error e => .error e
+      | .ok em => emeDecode em
+    else .error .value
+  else .error .value
 
 end PyCraft.Keys
